@@ -210,6 +210,32 @@ fn check(c: &SplitPair, obs: &mut Obs) -> Verdict {
         let mut keys: Vec<&String> = ax.keys().chain(ay.keys()).collect(); keys.sort(); keys.dedup();
         for k in keys { let (p, q) = (ax.get(k).cloned().unwrap_or(Rat::zero()), ay.get(k).cloned().unwrap_or(Rat::zero())); if !p.close(&q, &tol) { return fail(format!("row {i}: automatic adjustment to {k}: {p} without the split, {q} with it")); } }
     }
+    // the summary front end reports holdings and cost bases too: summarising everything (cut after the last row) must give, per affiliate,
+    // the same total cost base with and without the split and share counts scaled by a/b
+    {
+        use crate::observe::{run_summary, SummaryErr};
+        let last = c.base.iter().map(|r| r.sd).chain(c.with_split.iter().map(|r| r.sd)).max().unwrap_or(sd);
+        let (cut, today) = (last + Duration::days(1), last + Duration::days(200));
+        let summarise = |files: &Vec<(String, String)>| -> Option<BTreeMap<String, (Rat, Option<Rat>)>> {
+            let sm = match run_summary(files, &opts, cut, false, today) { Ok(s) => s, Err(SummaryErr::Panic(_)) | Err(_) => return None };
+            if sm.n_rows == 0 { return Some(BTreeMap::new()); }
+            let mut o2 = opts.clone(); o2.symbol_base = vec![]; // the summary replaces the opening position as well
+            let r = run_deltas(&vec![("summary.csv".to_string(), sm.csv)], &o2).ok()?;
+            let t = r.get("FOO")?; if t.err.is_some() { return None; }
+            let mut m = BTreeMap::new(); for row in normalize_all(&t.deltas) { m.insert(row.af.clone(), (row.share_bal.clone(), row.acb.clone())); } Some(m)
+        };
+        // (with an opening position the summary may or may not take it over - C10's business - so those cases are left out here)
+        if let (true, Some(h1), Some(h2)) = (c.opening.is_none(), summarise(&f1), summarise(&f2)) {
+            let mut ids: Vec<&String> = h1.keys().chain(h2.keys()).collect(); ids.sort(); ids.dedup();
+            for id in ids {
+                let zero = (Rat::zero(), Some(Rat::zero()));
+                let (a1, a2) = (h1.get(id).unwrap_or(&zero), h2.get(id).unwrap_or(&zero));
+                let acb_same = match (&a1.1, &a2.1) { (Some(x), Some(y)) => x.close(y, &tol), (None, None) => true, (Some(x), None) | (None, Some(x)) => x.is_zero() };
+                if !a1.0.mul(&factor).close(&a2.0, &tol) || !acb_same { return fail(format!("summary of everything: {id} ends with {} shares / cost base {:?} without the split and {} shares / {:?} with it (expected x {}/{})", a1.0, a1.1.as_ref().map(|x| x.to_string()), a2.0, a2.1.as_ref().map(|x| x.to_string()), c.a, c.b)); }
+            }
+            obs.class("summary-front-end-compared");
+        }
+    }
     // classification
     let mut in_window = false;
     for m in &m1.rows { if m.raw_gain.is_some() && (m.sd - sd).whole_days().abs() <= 30 { in_window = true; if !m.sfl.is_zero() { obs.class("superficial-sale-with-split-in-window"); } } }
@@ -227,7 +253,7 @@ fn check(c: &SplitPair, obs: &mut Obs) -> Verdict {
 }
 
 pub fn def() -> PropDef {
-    let mut d = PropDef::new("C15", "window scenarios H (1-4 affiliates incl. registered, a quarter with an opening position of the default affiliate, an anchor loss sale, 0-7 further buys/sales/RoC at boundary-weighted offsets; all share quantities multiples of 3 and later per-share amounts multiples of a, so the restated history is exactly representable) and H' = H with an a-for-b split inserted at a random position (same day before a row, or the day before) as one row for all affiliates or one row per affiliate (a third of the ratios that factor are entered as two successive same-day splits), later quantities x a/b and later per-share amounts x b/a; ratios 2-1, 3-1, 4-1, 5-1, 10-1, 1-2, 1-3, 1-4, 1-6, 1-10, 3-2, 2-3, 4-3, 5-2, 7-3, 1.5-1. Both runs must agree on accept/reject; every corresponding row must show the same gain, superficial loss, total ACB and automatic adjustments (1e-9) and share balances scaled by a/b. Non-trivial = the split lies within 30 days of a loss sale, or an affiliate holds nothing at the split, or the opening holder has no rows of its own. Distinct = distinct case content.");
+    let mut d = PropDef::new("C15", "window scenarios H (1-4 affiliates incl. registered, a quarter with an opening position of the default affiliate, an anchor loss sale, 0-7 further buys/sales/RoC at boundary-weighted offsets; all share quantities multiples of 3 and later per-share amounts multiples of a, so the restated history is exactly representable) and H' = H with an a-for-b split inserted at a random position (same day before a row, or the day before) as one row for all affiliates or one row per affiliate (a third of the ratios that factor are entered as two successive same-day splits), later quantities x a/b and later per-share amounts x b/a; ratios 2-1, 3-1, 4-1, 5-1, 10-1, 1-2, 1-3, 1-4, 1-6, 1-10, 3-2, 2-3, 4-3, 5-2, 7-3, 1.5-1. Both runs must agree on accept/reject; the summary of everything (--summarize-before after the last row) must leave each affiliate the same cost base and a/b times the shares; every corresponding row must show the same gain, superficial loss, total ACB and automatic adjustments (1e-9) and share balances scaled by a/b. Non-trivial = the split lies within 30 days of a loss sale, or an affiliate holds nothing at the split, or the opening holder has no rows of its own. Distinct = distinct case content.");
     d.assumptions = vec!["base histories contain no other split", "USD rows are not used (rates are irrelevant to neutrality)"];
     d.subs.push(Box::new(Sub::<SplitPair> { name: "neutral", cases_quick: 60_000, cases_thorough: 1_200_000, strategy: Box::new(strategy), to_json: SplitPair::to_json, from_json: SplitPair::from_json, check }));
     d
